@@ -155,12 +155,12 @@ impl InitHeader {
 
         let (payload_len_bytes, data) = data.split_at(2);
 
-        let payload_len = u16::from_be_bytes(payload_len_bytes.try_into().unwrap()).into();
-        let data = if payload_len > Self::MAX_PAYLOAD_SIZE {
-            data
-        } else {
-            &data[..payload_len]
-        };
+        let payload_len: usize = u16::from_be_bytes(payload_len_bytes.try_into().unwrap()).into();
+        // An initialization packet carries at most `MAX_PAYLOAD_SIZE` bytes of the payload,
+        // a packet that is too short to hold its share of the payload is malformed.
+        let data = data
+            .get(..payload_len.min(Self::MAX_PAYLOAD_SIZE))
+            .ok_or(())?;
         Ok((
             Self {
                 channel,
@@ -311,6 +311,8 @@ enum ExtensionError {
     OutOfSequence,
     /// Packet is not of the same channel ID as the current message
     WrongChannel,
+    /// Packet is shorter than the part of the payload it has to carry
+    TooShort,
 }
 
 /// Error occuring when trying to create a new message to send to a client
@@ -423,16 +425,16 @@ impl Message {
         }
 
         if header.seq == self.sequence {
-            self.sequence += 1;
-            let remaining_bytes = self.payload_len - self.payload.len();
+            let remaining_bytes = self.payload_len.saturating_sub(self.payload.len());
             const MAX_CONT_PACKET_LEN: usize = MAX_PACKET_SIZE - ContHeader::HEADER_SIZE;
-            if remaining_bytes <= MAX_CONT_PACKET_LEN {
-                self.payload.extend_from_slice(&data[..remaining_bytes]);
-                Ok(true)
-            } else {
-                self.payload.extend_from_slice(data);
-                Ok(false)
-            }
+            // A continuation packet carries at most `MAX_CONT_PACKET_LEN` bytes of the payload,
+            // a packet that is too short to hold its share of the payload is malformed.
+            let data = data
+                .get(..remaining_bytes.min(MAX_CONT_PACKET_LEN))
+                .ok_or(ExtensionError::TooShort)?;
+            self.sequence += 1;
+            self.payload.extend_from_slice(data);
+            Ok(self.is_complete())
         } else {
             Err(ExtensionError::OutOfSequence)
         }
